@@ -7,6 +7,7 @@ import RelicVerif.Lemmas.BnLowMul
 import RelicVerif.Lemmas.BnLowShift
 import RelicVerif.Lemmas.KnuthD
 import RelicVerif.Model.Bn
+import RelicVerif.Lemmas.BnTrim
 
 namespace Relic.Model
 
@@ -15,55 +16,536 @@ def ExactR (B : Nat) (r : Option Bn) (v : Int) : Prop := ∀ c, r = some c → c
 
 variable (cfg : Cfg)
 
+set_option linter.unnecessarySeqFocus false
+
+/-! ### helper lemmas -/
+
+theorem bnAddImp_exact (hB : 1 < cfg.B) (neg : Bool) (a b : Bn)
+    (hda : ∀ d ∈ a.dp, d < cfg.B) (hdb : ∀ d ∈ b.dp, d < cfg.B) (hle : b.used ≤ a.used)
+    (hb0 : b.used ≠ 0) :
+    ExactR cfg.B (bnAddImp cfg neg a b)
+      (if neg then -((val cfg.B a.dp + val cfg.B b.dp : Nat) : Int)
+       else ((val cfg.B a.dp + val cfg.B b.dp : Nat) : Int)) := by
+  intro c hc
+  rw [bnAddImp_eq, if_neg hb0] at hc
+  obtain ⟨e, c1, d1, l1⟩ := addCore_spec cfg.B hB a.dp b.dp hle hda hdb
+  generalize addCore cfg.B a.dp b.dp = p at *
+  obtain ⟨r, cy⟩ := p
+  simp only at e c1 d1 l1 hc
+  split at hc
+  · exact absurd hc (by simp)
+  · split at hc
+    · split at hc
+      · exact absurd hc (by simp)
+      · simp only [Option.some.injEq] at hc
+        subst hc
+        have hd : ∀ d ∈ r ++ [cy], d < cfg.B := by
+          intro d hd
+          rcases List.mem_append.1 hd with hd | hd
+          · exact d1 d hd
+          · simp at hd; omega
+        have := bnTrim_exact (B := cfg.B) (by omega) neg (r ++ [cy]) hd
+        rw [High.val_snoc, l1, Nat.mul_comm, e] at this
+        exact this
+    · simp only [Option.some.injEq] at hc
+      subst hc
+      have h0 : cy = 0 := by simpa using ‹¬ cy ≠ 0›
+      subst h0
+      have := bnTrim_exact (B := cfg.B) (by omega) neg r d1
+      simp only [Nat.zero_mul, Nat.add_zero] at e
+      rw [e] at this
+      exact this
+
+theorem bnSubImp_exact (hB : 1 < cfg.B) (neg : Bool) (a b : Bn)
+    (hda : ∀ d ∈ a.dp, d < cfg.B) (hdb : ∀ d ∈ b.dp, d < cfg.B) (hle : b.used ≤ a.used)
+    (hv : val cfg.B b.dp ≤ val cfg.B a.dp) (hb0 : b.used ≠ 0) :
+    ExactR cfg.B (bnSubImp cfg neg a b)
+      (if neg then -((val cfg.B a.dp : Int) - (val cfg.B b.dp : Int))
+       else ((val cfg.B a.dp : Int) - (val cfg.B b.dp : Int))) := by
+  intro c hc
+  rw [bnSubImp_eq, if_neg hb0] at hc
+  obtain ⟨e, d1, l1⟩ := subCore_spec cfg.B hB a.dp b.dp hle hv hda hdb
+  split at hc
+  · exact absurd hc (by simp)
+  · simp only [Option.some.injEq] at hc
+    subst hc
+    have := bnTrim_exact (B := cfg.B) (by omega) neg _ d1
+    refine ⟨this.1, ?_⟩
+    rw [this.2]
+    split <;> omega
+
+theorem bnAddSubDig_exact (hB : 1 < cfg.B) (a : Bn) (d : Nat) (s r : Bool) (ha : a.WF cfg.B) (hd : d < cfg.B) :
+    ExactR cfg.B (bnAddSubDig cfg a d s r)
+      (if s then (if r then -((val cfg.B a.dp : Int) + d) else ((val cfg.B a.dp : Int) + d))
+       else (if r then -((d : Int) - (val cfg.B a.dp : Int)) else ((d : Int) - (val cfg.B a.dp : Int)))) := by
+  intro c hc
+  rw [bnAddSubDig_eq] at hc
+  split at hc
+  · exact absurd hc (by simp)
+  cases s
+  · simp only [Bool.false_eq_true, if_false] at hc ⊢
+    split at hc
+    · rename_i hcond
+      obtain ⟨e, c2, d2, l2⟩ := sub1Low_spec cfg.B hB a.dp d hd ha.dig
+      have hle : d ≤ val cfg.B a.dp := by
+        rcases hcond with h | h
+        · have := ha.val_ge (by omega)
+          have : cfg.B ^ 1 ≤ cfg.B ^ (a.used - 1) := Nat.pow_le_pow_right (by omega) (by omega)
+          rw [Nat.pow_one] at this
+          omega
+        · match hdp : a.dp with
+          | [] => exact absurd hdp ha.1
+          | x :: xs => rw [hdp] at h; simp [val] at h ⊢; omega
+      have e' := High.borrow_zero cfg.B _ _ _ _ _ d2 l2 (c2 ha.1) e hle
+      simp only [Option.some.injEq] at hc
+      subst hc
+      have := bnTrim_exact (B := cfg.B) (by omega) (!r) _ d2
+      refine ⟨this.1, ?_⟩
+      rw [this.2]
+      cases r <;> simp <;> omega
+    · rename_i hcond
+      have h1 : a.used = 1 := by have := ha.used_pos; omega
+      simp only [Option.some.injEq] at hc
+      subst hc
+      unfold Bn.used at h1
+      match hdp : a.dp with
+      | [] => exact absurd hdp ha.1
+      | [x] =>
+        rw [hdp] at hcond
+        simp only [List.getD_cons_zero, not_or] at hcond
+        have hx : x < cfg.B := ha.dig x (by simp [hdp])
+        have hm : (d + cfg.B - x) % cfg.B = d - x := by
+          have : d + cfg.B - x = (d - x) + cfg.B := by omega
+          rw [this, Nat.add_mod_right, Nat.mod_eq_of_lt (by omega)]
+        simp only [Bn.used, hdp, List.length_singleton, if_true, List.getD_cons_zero, hm]
+        have := bnTrim_exact (B := cfg.B) (by omega) r [d - x] (by simp; omega)
+        refine ⟨this.1, ?_⟩
+        rw [this.2]
+        simp only [val, Nat.mul_zero, Nat.add_zero]
+        cases r <;> simp <;> omega
+      | _ :: _ :: _ => rw [hdp] at h1; simp at h1
+  · simp only [if_true] at hc ⊢
+    obtain ⟨e, c1, d1, l1⟩ := add1Low_spec cfg.B hB a.dp d hd ha.dig
+    have c1 := c1 ha.1
+    generalize add1Low cfg.B a.dp d = p at *
+    obtain ⟨q, cy⟩ := p
+    simp only at e c1 d1 l1 hc
+    split at hc
+    · split at hc
+      · exact absurd hc (by simp)
+      · simp only [Option.some.injEq] at hc
+        subst hc
+        have hd : ∀ d ∈ q ++ [cy], d < cfg.B := by
+          intro d hd
+          rcases List.mem_append.1 hd with hd | hd
+          · exact d1 d hd
+          · simp at hd; omega
+        have := bnTrim_exact (B := cfg.B) (by omega) r (q ++ [cy]) hd
+        rw [High.val_snoc, l1, Nat.mul_comm, e] at this
+        refine ⟨this.1, ?_⟩
+        rw [this.2]
+        cases r <;> simp
+    · simp only [Option.some.injEq] at hc
+      subst hc
+      have h0 : cy = 0 := by simpa using ‹¬ cy ≠ 0›
+      subst h0
+      have := bnTrim_exact (B := cfg.B) (by omega) r q d1
+      simp only [Nat.zero_mul, Nat.add_zero] at e
+      rw [e] at this
+      refine ⟨this.1, ?_⟩
+      rw [this.2]
+      cases r <;> simp
+
+/-! ### main theorems -/
+
 theorem bnAdd_exact (hw : 0 < cfg.w) (a b : Bn) (ha : a.WF cfg.B) (hb : b.WF cfg.B) :
-    ExactR cfg.B (bnAdd cfg a b) (a.toInt cfg.B + b.toInt cfg.B) := by sorry
+    ExactR cfg.B (bnAdd cfg a b) (a.toInt cfg.B + b.toInt cfg.B) := by
+  have hB := cfg.one_lt_B hw
+  have hlt := bnCmpAbs_lt_iff hB a b ha hb
+  unfold bnAdd
+  by_cases hs : a.neg = b.neg
+  · rw [if_pos hs]
+    by_cases hc : bnCmpAbs a b = -1
+    · rw [if_pos hc]
+      have hv := hlt.1 hc
+      have := bnAddImp_exact cfg hB a.neg b a hb.dig ha.dig
+        (Bn.WF.used_le_of_val_le hB ha hb (by omega)) ha.used_ne_zero
+      convert this using 1
+      unfold Bn.toInt; rw [← hs]; split <;> omega
+    · rw [if_neg hc]
+      have hv : ¬ _ := fun h => hc (hlt.2 h)
+      have := bnAddImp_exact cfg hB a.neg a b ha.dig hb.dig
+        (Bn.WF.used_le_of_val_le hB hb ha (by omega)) hb.used_ne_zero
+      convert this using 1
+      unfold Bn.toInt; rw [← hs]; split <;> omega
+  · rw [if_neg hs]
+    by_cases hc : bnCmpAbs a b = -1
+    · rw [if_pos hc]
+      have hv := hlt.1 hc
+      have := bnSubImp_exact cfg hB b.neg b a hb.dig ha.dig
+        (Bn.WF.used_le_of_val_le hB ha hb (by omega)) (by omega) ha.used_ne_zero
+      convert this using 1
+      unfold Bn.toInt
+      cases han : a.neg <;> cases hbn : b.neg <;> simp_all <;> omega
+    · rw [if_neg hc]
+      have hv : ¬ _ := fun h => hc (hlt.2 h)
+      have := bnSubImp_exact cfg hB a.neg a b ha.dig hb.dig
+        (Bn.WF.used_le_of_val_le hB hb ha (by omega)) (by omega) hb.used_ne_zero
+      convert this using 1
+      unfold Bn.toInt
+      cases han : a.neg <;> cases hbn : b.neg <;> simp_all <;> omega
 
 theorem bnSub_exact (hw : 0 < cfg.w) (a b : Bn) (ha : a.WF cfg.B) (hb : b.WF cfg.B) :
-    ExactR cfg.B (bnSub cfg a b) (a.toInt cfg.B - b.toInt cfg.B) := by sorry
+    ExactR cfg.B (bnSub cfg a b) (a.toInt cfg.B - b.toInt cfg.B) := by
+  have hB := cfg.one_lt_B hw
+  have hlt := bnCmpAbs_lt_iff hB a b ha hb
+  unfold bnSub
+  by_cases hs : a.neg ≠ b.neg
+  · rw [if_pos hs]
+    by_cases hc : bnCmpAbs a b = -1
+    · rw [if_pos hc]
+      have hv := hlt.1 hc
+      have := bnAddImp_exact cfg hB a.neg b a hb.dig ha.dig
+        (Bn.WF.used_le_of_val_le hB ha hb (by omega)) ha.used_ne_zero
+      convert this using 1
+      unfold Bn.toInt
+      cases han : a.neg <;> cases hbn : b.neg <;> simp_all <;> omega
+    · rw [if_neg hc]
+      have hv : ¬ _ := fun h => hc (hlt.2 h)
+      have := bnAddImp_exact cfg hB a.neg a b ha.dig hb.dig
+        (Bn.WF.used_le_of_val_le hB hb ha (by omega)) hb.used_ne_zero
+      convert this using 1
+      unfold Bn.toInt
+      cases han : a.neg <;> cases hbn : b.neg <;> simp_all <;> omega
+  · rw [if_neg hs]
+    have hs' : a.neg = b.neg := by simpa using hs
+    by_cases hc : bnCmpAbs a b = -1
+    · rw [if_neg (by simpa using hc)]
+      have hv := hlt.1 hc
+      have := bnSubImp_exact cfg hB (!a.neg) b a hb.dig ha.dig
+        (Bn.WF.used_le_of_val_le hB ha hb (by omega)) (by omega) ha.used_ne_zero
+      convert this using 1
+      unfold Bn.toInt
+      cases han : a.neg <;> cases hbn : b.neg <;> simp_all <;> omega
+    · rw [if_pos hc]
+      have hv : ¬ _ := fun h => hc (hlt.2 h)
+      have := bnSubImp_exact cfg hB a.neg a b ha.dig hb.dig
+        (Bn.WF.used_le_of_val_le hB hb ha (by omega)) (by omega) hb.used_ne_zero
+      convert this using 1
+      unfold Bn.toInt
+      cases han : a.neg <;> cases hbn : b.neg <;> simp_all <;> omega
 
-theorem bnAdd_total (a b : Bn) (h : max a.used b.used < cfg.cap) : (bnAdd cfg a b).isSome := by sorry
+theorem bnAdd_total (a b : Bn) (h : max a.used b.used < cfg.cap) : (bnAdd cfg a b).isSome := by
+  have h1 : a.used < cfg.cap := by omega
+  have h2 : b.used < cfg.cap := by omega
+  unfold bnAdd
+  split <;> split <;> first | exact bnAddImp_total cfg _ _ _ ‹_› | exact bnSubImp_total cfg _ _ _ ‹_›
 
-theorem bnSub_total (a b : Bn) (h : max a.used b.used < cfg.cap) : (bnSub cfg a b).isSome := by sorry
+theorem bnSub_total (a b : Bn) (h : max a.used b.used < cfg.cap) : (bnSub cfg a b).isSome := by
+  have h1 : a.used < cfg.cap := by omega
+  have h2 : b.used < cfg.cap := by omega
+  unfold bnSub
+  split <;> split <;> first | exact bnAddImp_total cfg _ _ _ ‹_› | exact bnSubImp_total cfg _ _ _ ‹_›
 
 theorem bnAddDig_exact (hw : 0 < cfg.w) (a : Bn) (d : Nat) (ha : a.WF cfg.B) (hd : d < cfg.B) :
-    ExactR cfg.B (bnAddDig cfg a d) (a.toInt cfg.B + d) := by sorry
+    ExactR cfg.B (bnAddDig cfg a d) (a.toInt cfg.B + d) := by
+  have := bnAddSubDig_exact cfg (cfg.one_lt_B hw) a d (!a.neg) false ha hd
+  unfold bnAddDig
+  convert this using 1
+  unfold Bn.toInt
+  cases a.neg <;> simp <;> omega
 
 theorem bnSubDig_exact (hw : 0 < cfg.w) (a : Bn) (d : Nat) (ha : a.WF cfg.B) (hd : d < cfg.B) :
-    ExactR cfg.B (bnSubDig cfg a d) (a.toInt cfg.B - d) := by sorry
+    ExactR cfg.B (bnSubDig cfg a d) (a.toInt cfg.B - d) := by
+  have := bnAddSubDig_exact cfg (cfg.one_lt_B hw) a d a.neg true ha hd
+  unfold bnSubDig
+  convert this using 1
+  unfold Bn.toInt
+  cases a.neg <;> simp <;> omega
 
 theorem bnDbl_exact (hw : 0 < cfg.w) (a : Bn) (ha : a.WF cfg.B) :
-    ExactR cfg.B (bnDbl cfg a) (2 * a.toInt cfg.B) := by sorry
+    ExactR cfg.B (bnDbl cfg a) (2 * a.toInt cfg.B) := by
+  have hB := cfg.one_lt_B hw
+  intro c hc
+  rw [bnDbl_eq] at hc
+  split at hc
+  · exact absurd hc (by simp)
+  obtain ⟨e, c1, d1, l1⟩ := lsh1Low_spec cfg.w hw a.dp 0 (by omega) ha.dig
+  rw [← cfg.B_eq] at e d1
+  generalize lsh1Low cfg.w a.dp 0 = p at *
+  obtain ⟨q, cy⟩ := p
+  simp only at e c1 d1 l1 hc
+  split at hc
+  · rename_i hcy
+    simp only [Option.some.injEq] at hc
+    subst hc
+    refine ⟨⟨by simp, ?_, Or.inr (by simpa using hcy), ?_⟩, ?_⟩
+    · intro d hd
+      rcases List.mem_append.1 hd with hd | hd
+      · exact d1 d hd
+      · simp at hd; omega
+    · intro h0
+      have : (q ++ [cy]).getLast? = some 0 := by simp only at h0; rw [h0]; rfl
+      simp at this; omega
+    · unfold Bn.toInt
+      simp only [High.val_snoc, l1]
+      rw [Nat.mul_comm, e]
+      split <;> omega
+  · rename_i hcy
+    have h0 : cy = 0 := by simpa using hcy
+    subst h0
+    simp only [Nat.zero_mul, Nat.add_zero] at e
+    simp only [Option.some.injEq] at hc
+    subst hc
+    have hu := ha.used_pos
+    unfold Bn.used at hu
+    refine ⟨WF_of_val a.neg q ?_ d1 ?_ ?_, ?_⟩
+    · intro hq; rw [hq] at l1; simp at l1; omega
+    · by_cases h2 : 2 ≤ a.used
+      · right
+        have := ha.val_ge h2
+        unfold Bn.used at this
+        rw [l1, e]; omega
+      · left; unfold Bn.used at h2; omega
+    · intro hv
+      have : val cfg.B a.dp = 0 := by omega
+      exact ha.2.2.2 ((ha.val_eq_zero_iff hB).1 this)
+    · unfold Bn.toInt
+      simp only [e]
+      split <;> omega
 
 theorem bnLsh_exact (hw : 0 < cfg.w) (a : Bn) (k : Nat) (ha : a.WF cfg.B) :
-    ExactR cfg.B (bnLsh cfg a k) (a.toInt cfg.B * 2 ^ k) := by sorry
+    ExactR cfg.B (bnLsh cfg a k) (a.toInt cfg.B * 2 ^ k) := by
+  have hB := cfg.one_lt_B hw
+  intro c hc
+  rw [bnLsh_eq] at hc
+  by_cases hcap : a.used + k / cfg.w + (if k % cfg.w > 0 then 1 else 0) > cfg.cap
+  · rw [if_pos hcap] at hc; exact absurd hc (by simp)
+  rw [if_neg hcap] at hc
+  have hk : cfg.B ^ (k / cfg.w) * 2 ^ (k % cfg.w) = 2 ^ k := by
+    rw [cfg.B_eq, ← Nat.pow_mul, ← Nat.pow_add, Nat.div_add_mod]
+  have fin : ∀ (l : List Nat), (∀ d ∈ l, d < cfg.B) → val cfg.B l = 2 ^ k * val cfg.B a.dp →
+      (bnTrim { neg := a.neg, dp := l }).WF cfg.B ∧
+      (bnTrim { neg := a.neg, dp := l }).toInt cfg.B = a.toInt cfg.B * 2 ^ k := by
+    intro l hl hv
+    have := bnTrim_exact (B := cfg.B) (by omega) a.neg l hl
+    refine ⟨this.1, ?_⟩
+    rw [this.2, hv]
+    unfold Bn.toInt
+    split <;> (push_cast; ring)
+  by_cases hbits : k % cfg.w > 0
+  · rw [if_pos hbits] at hc
+    have hbw : k % cfg.w < cfg.w := Nat.mod_lt _ hw
+    obtain ⟨e, c1, d1, l1⟩ := lshbLow_spec cfg.w (k % cfg.w) hbits hbw a.dp 0 (Nat.pow_pos (by omega)) ha.dig
+    rw [← cfg.B_eq] at e d1
+    generalize lshbLow cfg.w (k % cfg.w) a.dp 0 = p at *
+    obtain ⟨q, cy⟩ := p
+    simp only at e c1 d1 l1 hc
+    have hcy : cy < cfg.B := by
+      rw [cfg.B_eq]
+      exact Nat.lt_trans c1 (Nat.pow_lt_pow_right (by omega) hbw)
+    have hrq : ∀ d ∈ List.replicate (k / cfg.w) 0 ++ q, d < cfg.B := by
+      intro d hd
+      rcases List.mem_append.1 hd with hd | hd
+      · rw [List.mem_replicate] at hd; omega
+      · exact d1 d hd
+    split at hc
+    · simp only [Option.some.injEq] at hc
+      subst hc
+      apply fin
+      · intro d hd
+        rcases List.mem_append.1 hd with hd | hd
+        · exact hrq d hd
+        · simp at hd; omega
+      · rw [High.val_snoc, High.val_replicate_zero, List.length_append, List.length_replicate, l1, Nat.pow_add,
+          ← hk, Nat.mul_assoc, Nat.mul_assoc, ← Nat.mul_add]
+        congr 1
+        rw [Nat.mul_comm _ cy]; omega
+    · rename_i hcy0
+      have h0 : cy = 0 := by simpa using hcy0
+      subst h0
+      simp only [Option.some.injEq] at hc
+      subst hc
+      apply fin _ hrq
+      rw [High.val_replicate_zero, ← hk, Nat.mul_assoc]
+      congr 1
+      omega
+  · rw [if_neg hbits] at hc
+    have hb0 : k % cfg.w = 0 := by omega
+    simp only [Option.some.injEq] at hc
+    subst hc
+    apply fin
+    · intro d hd
+      rcases List.mem_append.1 hd with hd | hd
+      · rw [List.mem_replicate] at hd; omega
+      · exact ha.dig d hd
+    · rw [High.val_replicate_zero, ← hk, hb0]; simp
 
 theorem bnRsh_exact (hw : 0 < cfg.w) (a : Bn) (k : Nat) (ha : a.WF cfg.B)
     (hg : 0 ≤ a.toInt cfg.B ∨ (2 : Int) ^ k ∣ a.toInt cfg.B) :
-    ExactR cfg.B (bnRsh cfg a k) (Int.fdiv (a.toInt cfg.B) (2 ^ k)) := by sorry
+    ExactR cfg.B (bnRsh cfg a k) (Int.fdiv (a.toInt cfg.B) (2 ^ k)) := by
+  have hB := cfg.one_lt_B hw
+  intro c hc
+  rw [bnRsh_eq] at hc
+  split at hc
+  · exact absurd hc (by simp)
+  simp only [Option.some.injEq] at hc
+  subst hc
+  obtain ⟨hv, hd⟩ := rshCore_spec cfg.w hw a.dp k ha.dig
+  have hcast : ((2 ^ k : Nat) : Int) = (2 : Int) ^ k := by push_cast; rfl
+  rw [← hcast] at hg ⊢
+  exact fdiv_fin hB a (2 ^ k) (Nat.pow_pos (by omega)) ha hg _ hd hv
 
 theorem bnHlv_exact (hw : 0 < cfg.w) (a : Bn) (ha : a.WF cfg.B)
     (hg : 0 ≤ a.toInt cfg.B ∨ (2 : Int) ∣ a.toInt cfg.B) :
-    ExactR cfg.B (bnHlv cfg a) (Int.fdiv (a.toInt cfg.B) 2) := by sorry
+    ExactR cfg.B (bnHlv cfg a) (Int.fdiv (a.toInt cfg.B) 2) := by
+  have hB := cfg.one_lt_B hw
+  intro c hc
+  unfold bnHlv at hc
+  simp only [bnTrim_of_WF ha, Option.some.injEq] at hc
+  subst hc
+  obtain ⟨hv, _, hd, _⟩ := rsh1Low_spec cfg.w hw a.dp ha.dig
+  exact fdiv_fin hB a 2 (by omega) ha hg _ hd hv
 
 theorem bnCmpAbs_exact (hw : 0 < cfg.w) (a b : Bn) (ha : a.WF cfg.B) (hb : b.WF cfg.B) :
     bnCmpAbs a b = (if (a.toInt cfg.B).natAbs < (b.toInt cfg.B).natAbs then -1
-                    else if (a.toInt cfg.B).natAbs > (b.toInt cfg.B).natAbs then 1 else 0) := by sorry
+                    else if (a.toInt cfg.B).natAbs > (b.toInt cfg.B).natAbs then 1 else 0) := by
+  rw [toInt_natAbs, toInt_natAbs]
+  exact bnCmpAbs_val (cfg.one_lt_B hw) a b ha hb
 
 theorem bnCmp_exact (hw : 0 < cfg.w) (a b : Bn) (ha : a.WF cfg.B) (hb : b.WF cfg.B) :
     bnCmp a b = (if a.toInt cfg.B < b.toInt cfg.B then -1
-                 else if a.toInt cfg.B > b.toInt cfg.B then 1 else 0) := by sorry
+                 else if a.toInt cfg.B > b.toInt cfg.B then 1 else 0) := by
+  have hB := cfg.one_lt_B hw
+  unfold bnCmp
+  by_cases hz : (bnIsZero a && bnIsZero b) = true
+  · rw [if_pos hz]
+    simp only [Bool.and_eq_true] at hz
+    have h1 := (ha.isZero_iff hB).1 hz.1
+    have h2 := (hb.isZero_iff hB).1 hz.2
+    unfold Bn.toInt
+    simp [h1, h2]
+  · rw [if_neg hz]
+    cases han : a.neg <;> cases hbn : b.neg
+    · simp only [Bool.not_false, Bool.and_false, Bool.false_and, Bool.false_eq_true, if_false]
+      rw [bnCmpAbs_val hB a b ha hb, toInt_of_pos han, toInt_of_pos hbn]
+      simp only [Int.ofNat_lt, gt_iff_lt]
+    · simp only [Bool.not_false, Bool.and_true, if_true]
+      rw [toInt_of_pos han, toInt_of_neg hbn]
+      have := hb.neg_pos hB hbn
+      rw [if_neg (by omega), if_pos (by omega)]
+    · simp only [Bool.not_true, Bool.not_false, Bool.and_false, Bool.false_eq_true, if_false, Bool.and_true, if_true]
+      rw [toInt_of_neg han, toInt_of_pos hbn]
+      have := ha.neg_pos hB han
+      have h : -(val cfg.B a.dp : Int) < (val cfg.B b.dp : Int) := by omega
+      rw [if_pos h]
+    · simp only [Bool.not_true, Bool.and_false, Bool.and_true, Bool.false_eq_true, if_false, if_true]
+      rw [bnCmpAbs_val hB b a hb ha, toInt_of_neg han, toInt_of_neg hbn]
+      simp only [Int.neg_lt_neg_iff, Int.ofNat_lt, gt_iff_lt]
 
 theorem bnCmpDig_exact (hw : 0 < cfg.w) (a : Bn) (d : Nat) (ha : a.WF cfg.B) (hd : d < cfg.B) :
-    bnCmpDig a d = (if a.toInt cfg.B < d then -1 else if a.toInt cfg.B > d then 1 else 0) := by sorry
+    bnCmpDig a d = (if a.toInt cfg.B < d then -1 else if a.toInt cfg.B > d then 1 else 0) := by
+  have hB := cfg.one_lt_B hw
+  unfold bnCmpDig
+  cases han : a.neg
+  · simp only [Bool.false_eq_true, if_false]
+    rw [toInt_of_pos han]
+    by_cases hu : a.used > 1
+    · rw [if_pos hu]
+      have := ha.val_ge (by omega)
+      have : cfg.B ^ 1 ≤ cfg.B ^ (a.used - 1) := Nat.pow_le_pow_right (by omega) (by omega)
+      rw [Nat.pow_one] at this
+      rw [if_neg (by omega), if_pos (by omega)]
+    · rw [if_neg hu]
+      have h1 := ha.used_pos
+      unfold Bn.used at *
+      match hdp : a.dp with
+      | [] => exact absurd hdp ha.1
+      | [x] =>
+        simp only [List.getD_cons_zero, val, Nat.mul_zero, Nat.add_zero, gt_iff_lt, Int.ofNat_lt]
+        rcases Nat.lt_trichotomy x d with h | h | h
+        · simp [h, Nat.lt_asymm h]
+        · simp [h]
+        · simp [h, Nat.lt_asymm h]
+      | _ :: _ :: _ => rw [hdp] at hu; simp at hu
+  · simp only [if_true]
+    rw [toInt_of_neg han]
+    have := ha.neg_pos hB han
+    have h : -(val cfg.B a.dp : Int) < (d : Int) := by omega
+    rw [if_pos h]
 
 theorem bnBits_exact (hw : 0 < cfg.w) (a : Bn) (ha : a.WF cfg.B) :
-    bnBitsW cfg.w a = (if a.toInt cfg.B = 0 then 0 else Nat.log2 (a.toInt cfg.B).natAbs + 1) := by sorry
+    bnBitsW cfg.w a = (if a.toInt cfg.B = 0 then 0 else Nat.log2 (a.toInt cfg.B).natAbs + 1) := by
+  rw [bnBitsW_val cfg hw a ha, toInt_natAbs]
+  simp only [toInt_eq_zero_iff]
 
 theorem bnGetBit_exact (hw : 0 < cfg.w) (a : Bn) (k : Nat) (ha : a.WF cfg.B) :
-    bnGetBit cfg.w a k = ((a.toInt cfg.B).natAbs >>> k) % 2 := by sorry
+    bnGetBit cfg.w a k = ((a.toInt cfg.B).natAbs >>> k) % 2 := by
+  have hB := cfg.one_lt_B hw
+  rw [toInt_natAbs, Nat.shiftRight_eq_div_pow]
+  unfold bnGetBit
+  have hk : cfg.B ^ (k / cfg.w) * 2 ^ (k % cfg.w) = 2 ^ k := by
+    rw [cfg.B_eq, ← Nat.pow_mul, ← Nat.pow_add, Nat.div_add_mod]
+  split
+  · rename_i hgt
+    rw [bnBitsW_val cfg hw a ha] at hgt
+    have hlt : val cfg.B a.dp < 2 ^ k := by
+      split at hgt
+      · rename_i h0; rw [h0]; exact Nat.pow_pos (by omega)
+      · exact Nat.lt_of_lt_of_le Nat.lt_log2_self (Nat.pow_le_pow_right (by omega) (by omega))
+    rw [Nat.div_eq_of_lt hlt]
+  · simp only
+    split
+    · rename_i hge
+      have h1 := ha.val_lt
+      have h2 : cfg.B ^ a.used ≤ cfg.B ^ (k / cfg.w) := Nat.pow_le_pow_right (by omega) hge
+      have h3 : cfg.B ^ (k / cfg.w) * 1 ≤ cfg.B ^ (k / cfg.w) * 2 ^ (k % cfg.w) :=
+        Nat.mul_le_mul_left _ (Nat.pow_pos (by omega))
+      rw [Nat.div_eq_of_lt (by omega)]
+    · rename_i hlt
+      have hlt' : k / cfg.w < a.dp.length := by unfold Bn.used at hlt; omega
+      rw [Nat.shiftRight_eq_div_pow, Nat.and_one_is_mod, ← hk, ← Nat.div_div_eq_div_mul,
+        ← High.val_drop cfg.B a.dp _ ha.dig, List.drop_eq_getElem_cons hlt', val, cfg.B_eq,
+        High.digit_bit _ _ _ _ (Nat.mod_lt _ hw)]
+      simp [List.getD_eq_getElem?_getD, hlt']
 
 theorem bnSet2b_exact (hw : 0 < cfg.w) (k : Nat) :
-    ExactR cfg.B (bnSet2b cfg k) (2 ^ k) ∧ (k < cfg.cap * cfg.w → (bnSet2b cfg k).isSome) := by sorry
+    ExactR cfg.B (bnSet2b cfg k) (2 ^ k) ∧ (k < cfg.cap * cfg.w → (bnSet2b cfg k).isSome) := by
+  have hB := cfg.one_lt_B hw
+  have hd : k / cfg.w < cfg.cap ↔ k < cfg.cap * cfg.w := Nat.div_lt_iff_lt_mul hw
+  have heq : bnSet2b cfg k = if k ≥ cfg.cap * cfg.w then none
+      else some { neg := false, dp := List.replicate (k / cfg.w) 0 ++ [2 ^ (k % cfg.w)] } := by
+    unfold bnSet2b grow
+    split
+    · rfl
+    · rename_i h
+      have : ¬ (k / cfg.w + 1 > cfg.cap) := by have := hd.2 (by omega); omega
+      simp [this]
+  constructor
+  · intro c hc
+    rw [heq] at hc
+    split at hc
+    · exact absurd hc (by simp)
+    · simp only [Option.some.injEq] at hc
+      subst hc
+      have hm : 2 ^ (k % cfg.w) < cfg.B := by
+        rw [cfg.B_eq]; exact Nat.pow_lt_pow_right (by omega) (Nat.mod_lt _ hw)
+      have hp : 0 < 2 ^ (k % cfg.w) := Nat.pow_pos (by omega)
+      refine ⟨⟨by simp, ?_, Or.inr ?_, fun _ => rfl⟩, ?_⟩
+      · intro d hd
+        rcases List.mem_append.1 hd with hd | hd
+        · rw [List.mem_replicate] at hd; omega
+        · simp at hd; omega
+      · simp
+      · unfold Bn.toInt
+        simp only [Bool.false_eq_true, if_false]
+        rw [High.val_replicate_zero, cfg.B_eq]
+        simp only [val, Nat.mul_zero, Nat.add_zero]
+        rw [← Nat.pow_mul, ← Nat.pow_add, Nat.div_add_mod]
+        push_cast; rfl
+  · intro h
+    rw [heq, if_neg (by omega)]
+    rfl
 
 
 end Relic.Model
